@@ -219,7 +219,13 @@ func c12b(c *Ctx) {
 				}
 			}
 			if !bad {
-				c.add(Result{Instance: inst, Verdict: Discharged, Sites: sitePositions(t.sinks), Detail: "sink unreachable from the parse unless " + gd.name, Witnesses: f.WitEdges(gd.e)})
+				nec := map[Edge]bool{}
+				for _, p := range parses {
+					for e := range necessaryEdges(g, p.After(), gd.e, t.sinks, Cut{}) {
+						nec[e] = true
+					}
+				}
+				c.add(Result{Instance: inst, Verdict: Discharged, Sites: sitePositions(t.sinks), Detail: "sink unreachable from the parse unless " + gd.name, Witnesses: f.WitEdges(nec)})
 			}
 		}
 		// Entry: index check
@@ -246,21 +252,33 @@ func c12b(c *Ctx) {
 				if a.Val {
 					return false
 				}
-				hasLI, hasArch := false, false
-				ast.Inspect(a.E, func(n ast.Node) bool {
-					if e, ok := n.(ast.Expr); ok {
-						if _, okc := cmpRel(Atom{e, true}, isLI, isIdx); okc {
-							hasLI = true
-						}
-						if isArch(e) {
-							hasArch = true
-						}
+				// the false edge of a conjunction made ONLY of `!archival` and `LeafIndex != index`
+				var conj []ast.Expr
+				var flat func(e ast.Expr)
+				flat = func(e ast.Expr) {
+					if be, ok := ast.Unparen(e).(*ast.BinaryExpr); ok && be.Op == token.LAND {
+						flat(be.X)
+						flat(be.Y)
+						return
 					}
-					return true
-				})
-				// !(… && LeafIndex != index) : accepted only if the conjunction mentions the inequality
-				be, isB := ast.Unparen(a.E).(*ast.BinaryExpr)
-				return isB && be.Op == token.LAND && hasLI && hasArch
+					conj = append(conj, ast.Unparen(e))
+				}
+				flat(a.E)
+				if len(conj) < 2 {
+					return false
+				}
+				hasNE := false
+				for _, e := range conj {
+					if rel, ok := cmpRel(Atom{e, true}, isLI, isIdx); ok && rel == relLT|relGT {
+						hasNE = true
+						continue
+					}
+					if u, ok := e.(*ast.UnaryExpr); ok && u.Op == token.NOT && isArch(u.X) {
+						continue
+					}
+					return false
+				}
+				return hasNE
 			})
 			inst := t.name + " index equality"
 			all := unionEdges(safe, compound)
